@@ -109,6 +109,10 @@ def cases(tier, seed):
         d.update({"fields": ["temp", "density"], "layout": [scope.layouts(len(b), 'idrev')[-1] for b in m["levels"]], "payload": "coded", "time": times[3],
                   "seed": seed, "levelprefix": "Lev_"})
         out.append({"desc": d, "full": False, "maxlist": 2, "boxes_only": False, "devlevel": None, "w": 12, "levelprefix": True})
+        # binary files in the level directories that the level headers do not list (leftovers, one with a FAB, one empty)
+        d = dict(d, decoy=True)
+        d.pop("levelprefix")
+        out.append({"desc": d, "full": False, "maxlist": 2, "boxes_only": False, "devlevel": None, "w": 12, "decoy": True})
     # 120 fields: three-digit component counts in the FAB headers and level headers, long min / max rows
     m = scope.named_meshes(3)[1]
     d = dict(m)
